@@ -218,6 +218,60 @@ theorem sorted_by_name_duplicate_witness :
 example : emitOrder (fun a b : Nat => decide (a ≤ b)) (fun t : Nat × Nat => t.1) [(3, 0), (1, 1), (2, 2)] =
     emitOrder (fun a b : Nat => decide (a ≤ b)) (fun t : Nat × Nat => t.1) [(2, 2), (3, 0), (1, 1)] := by decide
 
+/-! ## second generation (a compiled model compiled again) -/
+
+/-- second generation: if the verbatim scan reports nothing, every Ethos-U operator of the compiled input has exactly one
+    Ethos-U operator of the same result names in the output, and that operator is equal to it (`opEq`). -/
+theorem ethosu_verbatim_sound (src out : PGraph) (h : ethosuVerbatimProblems src out = []) :
+    ∀ (j : Nat) (sop : POp), src.ops[j]? = some sop → isEthosU sop = true →
+      ∃ (k : Nat) (oop : POp), out.ops[k]? = some oop ∧ isEthosU oop = true ∧ outKey out oop = outKey src sop ∧
+        opEq src out k sop oop = true ∧
+        ∀ (k' : Nat) (oop' : POp), out.ops[k']? = some oop' → isEthosU oop' = true → outKey out oop' = outKey src sop →
+          k' = k ∧ oop' = oop := by
+  intro j sop hj he
+  unfold ethosuVerbatimProblems at h
+  rw [List.flatMap_eq_nil_iff] at h
+  have := h (sop, j) (mem_zipIdx' hj)
+  simp only [he, Bool.not_true, Bool.false_eq_true, if_false] at this
+  split at this
+  · rename_i oop k hc
+    have hmem : (oop, k) ∈ ethosuCandidates src out sop := by rw [hc]; exact List.mem_singleton.mpr rfl
+    obtain ⟨h1, h2, h3⟩ := (mem_ethosuCandidates src out sop oop k).mp hmem
+    refine ⟨k, oop, h1, h2, h3, by simp [opEq, this], ?_⟩
+    intro k' oop' h1' h2' h3'
+    have : (oop', k') ∈ ethosuCandidates src out sop := (mem_ethosuCandidates src out sop oop' k').mpr ⟨h1', h2', h3'⟩
+    rw [hc] at this
+    have := List.mem_singleton.mp this
+    exact ⟨(Prod.mk.inj this).2, (Prod.mk.inj this).1⟩
+  · simp at this
+  · simp at this
+
+
+/-- second generation: if the placement scan reports nothing, every plan entry of the output gives every operand and result of
+    every passed-through Ethos-U operator the arena offset it had in the compiled input. -/
+theorem ethosu_placement_sound (src out : PGraph) (splan : List Int) (oplans : List (List Int))
+    (h : ethosuPlacementProblems src out splan oplans = []) :
+    ∀ (j : Nat) (sop : POp), src.ops[j]? = some sop → isEthosU sop = true →
+      ∀ (oop : POp) (k : Nat), ethosuCandidates src out sop = [(oop, k)] →
+        ∀ pl ∈ oplans, ∀ p ∈ operandPairs sop oop, splan[p.1]? = pl[p.2]? := by
+  intro j sop hj he oop k hc pl hpl p hp
+  unfold ethosuPlacementProblems at h
+  rw [List.flatMap_eq_nil_iff] at h
+  have h1 := h (sop, j) (mem_zipIdx' hj)
+  simp only [he, Bool.not_true, Bool.false_eq_true, if_false, hc] at h1
+  rw [List.flatMap_eq_nil_iff] at h1
+  obtain ⟨pi, hpi⟩ := List.getElem?_of_mem hpl
+  have h2 := h1 (pl, pi) (mem_zipIdx' hpi)
+  simp only at h2
+  rw [List.filterMap_eq_nil_iff] at h2
+  have h3 := h2 p hp
+  obtain ⟨a, b⟩ := p
+  simp only at h3 ⊢
+  by_cases hq : (splan[a]? == pl[b]?) = true
+  · exact beq_iff_eq.mp hq
+  · simp [hq] at h3
+
+
 /-! ## non-vacuity of the Spec: a mixed NPU/CPU pair that is accepted, and mutants that are rejected -/
 
 def tQ (name : String) (shape : List Int) : PTensor :=
@@ -293,5 +347,24 @@ example : (check (cpuConv (wPerAxis [3, -2] 0)) (cpuConv (wPerAxis [3, -2] 3))).
   decide +kernel
 /-- an absent zero-point vector next to the scales means zeros, and only zeros -/
 example : (check (cpuConv (wPerAxis [] 0)) (cpuConv (wPerAxis [0, 0] 0))).problems = [] := by decide +kernel
+
+/-- second generation, non-vacuity: the written demo model passed through unchanged is accepted (its Ethos-U operator is found
+    again, equal); a changed command stream (constant data of operand 0), changed custom options, a grown scratch tensor and a
+    lost operator are rejected -/
+example : ethosuVerbatimProblems demoOut demoOut = [] ∧ (demoOut.ops.filter isEthosU).length = 1 := by decide +kernel
+example : (ethosuVerbatimProblems demoOut { demoOut with tensors := demoOut.tensors.set 1 (tC "6373" 200 "ce") }).map (·.kind) =
+    ["operand-constant-data"] := by decide +kernel
+example : (ethosuVerbatimProblems demoOut { demoOut with ops := demoOut.ops.map fun o => if isEthosU o then { o with customOpts := "010402" } else o }).map (·.kind) =
+    ["custom-options"] := by decide +kernel
+example : (ethosuVerbatimProblems demoOut { demoOut with tensors := demoOut.tensors.set 3 { tC "7363" 16 "" with const := none } }).map (·.kind) =
+    ["operand-shape"] := by decide +kernel
+example : (ethosuVerbatimProblems demoOut { demoOut with ops := demoOut.ops.drop 1 }).map (·.kind) = ["ethosu-lost"] := by decide +kernel
+
+/-- placement, non-vacuity: the demo model with the plan [96, -1, -1, 0, 0, 0, 224] (result "61" at 96, input "78" at 0) keeps it;
+    a second plan entry that moves the result to 256 is rejected although the first entry is intact -/
+example : ethosuPlacementProblems demoOut demoOut [96, -1, -1, 0, 0, 0, 224] [[96, -1, -1, 0, 0, 0, 224]] = [] ∧
+    (operandPairs (demoOut.ops.headD default) (demoOut.ops.headD default)).length = 6 := by decide +kernel
+example : (ethosuPlacementProblems demoOut demoOut [96, -1, -1, 0, 0, 0, 224]
+    [[96, -1, -1, 0, 0, 0, 224], [256, -1, -1, 0, 0, 0, 224]]).map (·.kind) = ["ethosu-operand-moved"] := by decide +kernel
 
 end VelaVerif.Props.C11
